@@ -19,6 +19,17 @@ Definition fgrad (f : fn) (x : list Q) : list Q :=
   map (fun j => two * nthK (f_q f) j * (nthK x j - nthK (f_t f) j) - nthK (f_c f) j / sq (nthK x j) + nthK (f_w f) j
                 + two * f_s f * (dot (f_v f) x - f_rho f) * nthK (f_v f) j) (seq 0 (length x)).
 
+(* ---- convex, continuously differentiable hinge terms  sum_j h_j * max(0, sg_j * (x_j - u_j))^2  (sg_j = 1 or -1) added to a
+   test function: the gradient with respect to x_j vanishes identically while the term is inactive, so a module that
+   reports a vanishing block as None changes its None pattern from iteration to iteration *)
+Record hinge := mkh { h_h : list Q; h_u : list Q; h_sg : list Q }.
+Definition hpos (h : hinge) (x : list Q) (j : nat) : Q :=
+  Qmaxb (nofZ 0) (nthK (h_sg h) j * (nthK x j - nthK (h_u h) j)).
+Definition hval (h : hinge) (x : list Q) : Q :=
+  nsum (map (fun j => nthK (h_h h) j * sq (hpos h x j)) (seq 0 (length x))).
+Definition hgrad (h : hinge) (x : list Q) : list Q :=
+  map (fun j => two * nthK (h_h h) j * nthK (h_sg h) j * hpos h x j) (seq 0 (length x)).
+
 Local Close Scope num_scope.
 
 (* ---- comparison helpers *)
@@ -39,6 +50,22 @@ Definition responses_ok (fs : list fn) (xval : list Q) (scales : list Q) (g : li
                     let s := nth i scales 1%Q in
                     Qclose_s s (fval f xval) (nth i g 0%Q) && Ql_close_s s (fgrad f xval) (nth i dg []))
           (seq 0 (length fs)).
+
+(* the same for test functions with hinge terms *)
+Definition Ql_add (a b : list Q) : list Q := map (fun p => (fst p + snd p)%Q) (combine a b).
+Definition responses_h_ok (fs : list (fn * hinge)) (xval : list Q) (scales : list Q) (g : list Q) (dg : list (list Q)) : bool :=
+  (length fs =? length g)%nat && (length fs =? length dg)%nat && (length fs =? length scales)%nat &&
+  forallb (fun i => let fh := nth i fs (mkfn [] [] [] [] 0 [] 0 0, mkh [] [] []) in
+                    let s := nth i scales 1%Q in
+                    Qclose_s s (fval (fst fh) xval + hval (snd fh) xval)%Q (nth i g 0%Q) &&
+                    Ql_close_s s (Ql_add (fgrad (fst fh) xval) (hgrad (snd fh) xval)) (nth i dg []))
+          (seq 0 (length fs)).
+
+(* ---- the sensitivity rows MMA.response collects: row i of dg is built from what the variable signals held after the
+   sensitivity run of response i (None = no sensitivity -> 0*state), exactly (Model/MMAvars.sens_row) *)
+Definition sensrows_ok (states : list (sval Q)) (sens : list (list (option (sval Q)))) (dg : list (list Q)) : bool :=
+  (length sens =? length dg)%nat &&
+  forallb (fun p => Ql_eqb (sens_row (fun _ => 0%Q) states (fst p)) (snd p)) (combine sens dg).
 
 (* ---- one call of MMA.mmasub: recorded offset / low / upp / alfa / beta / P / Q / b against the model *)
 Definition mmasub_ok (p : asypar Q) (has87 has07 : bool) (xval xmin xmax move : list Q)
